@@ -739,7 +739,7 @@ def _history(w, r, rec, nevents, want_model, parse_gitlog, snap_of, deadline=Non
                 touched.clear()
     # ---- scripted tails that make the clean commands meet user work (otherwise a rare coincidence)
     tail = r.random()
-    if not rec.get("cut") and tail < 0.3:
+    if not rec.get("cut") and tail < 0.35:
         gd = git_dirs()
         if gd and used:
             d, path = r.choice(gd)
@@ -757,10 +757,12 @@ def _history(w, r, rec, nevents, want_model, parse_gitlog, snap_of, deadline=Non
             bob_event("clean-src", ["clean", "-s"])
             if not os.path.isdir(wsroot):
                 touched.clear()
-    elif not rec.get("cut") and tail < 0.6:
+    elif not rec.get("cut") and tail < 0.75:
         gd = git_dirs()
         if gd and used:
-            d, path = r.choice(gd)
+            # prefer a nested clone: its parent goes to the attic and takes it along
+            nested_gd = [x for x in gd if any(y[0] != x[0] and is_prefix(y[0], x[0]) for y in gd)]
+            d, path = r.choice(nested_gd) if nested_gd and r.random() < 0.75 else r.choice(gd)
             desc = user_op(w, r, path, ledger)
             tag_ledger(d)
             cache.clear()
@@ -769,7 +771,8 @@ def _history(w, r, rec, nevents, want_model, parse_gitlog, snap_of, deadline=Non
             prune_ledger()
             # make the parent (or the SCM itself) unswitchable: it goes to the attic
             tops = [i for i, s_ in enumerate(specs) if is_prefix(s_["dir"], d)]
-            i = r.choice(tops)
+            parents = [i for i in tops if norm(specs[i]["dir"]) != norm(d)]
+            i = r.choice(parents) if parents and r.random() < 0.75 else r.choice(tops)
             specs = [dict(s_) for s_ in specs]
             if specs[i]["scm"] == "git":
                 specs[i]["submodules"] = not specs[i].get("submodules", False)
